@@ -255,34 +255,26 @@ def run(rep, facts, tier):
             rep.add('C15.R2', 'C15.R2:%s~%s' % (short(ev), short(co)), ok,
                     'both are %s with mode Eval resp. Compile' % short(modes[ev][0]) if ok else 'eval/compile do not share one build entry: %s vs %s' % (modes[ev], modes[co]),
                     ev, fx.fns[ev].j['span'])
-    # eval = compile + run also when something was compiled before and has not run yet: the context eval opens starts at the
-    # pending instruction (run() would execute it first), not at the end of the code
-    co = inline.thread_fn(fx.need('state::State::context_open'))     # `let pending = a && b && c; .. if pending {..}` read as the nested tests
-    from ..rules.c11 import guards_of as _g11
+    # a context never starts at the ip of the one around it.  That ip is not only "what is still pending": while an instruction
+    # is in flight (a host word that calls eval) it is that very instruction, and while a source is being built (an immediate host
+    # word that calls eval) it is the start of the half-built code.  A context starts at the end of all code - its own code.
+    # (An earlier repair, 63fc06a, did the opposite for compile(A); eval(B) and was taken back: DESIGN 9.3 / 9.5.)
+    co = inline.thread_fn(fx.need('state::State::context_open'))
     from ..core import op_place
-    pend = False
+    inherits = []
     for bb in co.reachable_blocks():
         for st in co.blocks[bb]['stmts']:
-            # a read of the enclosing context's ip - into a field assignment or into a local that ends up in the Context literal
             if st['k'] != 'assign' or st['rv']['k'] != 'use':
                 continue
             pl = op_place(st['rv']['o'])
             names = [x.get('f') for x in (pl or {}).get('p', []) if isinstance(x, dict)]
-            if not (pl and 'ctx' in names and names[-1:] == ['ip']):
-                continue
-            for (_, e, side) in _g11(co, bb):
-                # `a && b && c` evaluates to phi(false | c): true only if c is
-                if isinstance(e, tuple) and e[0] == 'phi':
-                    alts = [x for x in e[1] if not (isinstance(x, tuple) and x[0] == 'const' and isinstance(x[1], dict) and x[1].get('v') in (0, False))]
-                    if len(alts) == 1:
-                        e = alts[0]
-                se = expr_str(e, -12)
-                if side and se.startswith('Lt(') and 'ctx.ip' in se and 'code' in se:
-                    pend = True
-    rep.add('C15.R2', 'C15.R2:context_open:pending-code-runs-first', pend,
-            'an Eval context opened while compiled code is pending (ctx.ip < code.len()) starts at that ip' if pend else
-            'context_open starts every Eval context at the end of the code: `compile("1 2 3")` then `eval("4")` leaves only 4 - the pending '
-            'program is skipped, where compile + run executes it', co.name, co.j['span'])
+            if pl and 'ctx' in names and names[-1:] == ['ip']:
+                inherits.append(st.get('at'))
+    rep.add('C15.R2', 'C15.R2:context_open:starts-at-its-own-code', not inherits,
+            'context_open does not read the ip of the enclosing context: every context starts at the end of all code' if not inherits else
+            'context_open reads the ip of the enclosing context (%s): a context that starts there re-enters the instruction in flight when a '
+            'host word calls eval (native stack overflow), and runs the half-built source when an immediate host word does' % inherits[0],
+            co.name, co.j['span'])
     # who compares ctx.mode with Eval / Compile
     n_cmp = 0
     for fn in sorted(fx.fns):
@@ -416,4 +408,4 @@ def run(rep, facts, tier):
             ri.name, (rets_to or [(0, ri.j['span'])])[0][1])
 
 # as-built addendum
-EXPLANATION += " As built (DESIGN 9.2): R1 also: readers of the log are the debugger words and the context open/close marks (through length-mark accessors). R2 also: a failed run under eval leaves the context like compile+run; an immediate word returns to the end of the code and the builder's ip is restored; eval of a further source runs pending code first."
+EXPLANATION += " As built (DESIGN 9.2): R1 also: readers of the log are the debugger words and the context open/close marks (through length-mark accessors). R2 also: a failed run under eval leaves the context like compile+run; an immediate word returns to the end of the code and the builder's ip is restored; a context never starts at the ip of the enclosing one."
